@@ -1,7 +1,379 @@
-//! C07 — not implemented yet (see DESIGN.md section 4).
-use kit::Run;
-use serde_json::Value;
+//! C07 — embedding round trip: write, read, replace and remove manifest stores.
+//!
+//! S-inp: for every seed asset (every writable format, variants with XMP / extra chunks / trailing data /
+//! a foreign manifest) and EVERY store length in a contiguous range plus windows around the container
+//! boundaries, on the real handlers through the public `jumbf_io::{save,load}_jumbf_*_memory` and the
+//! `remove_cai_store` hook. S-seq: BFS over {write A, write B, write C, remove} from three initial states
+//! with de-duplication of states by their bytes; the reference model is `Option<store>`.
+//! The oracle side is `kit::walk` (independent container walkers): exactly one manifest container whose
+//! payload is the model's store, none after removal.
+//!
+//! Mutants caught (tools/mutant_run.sh A <diff> C07 quick): see /verif/mutants/C07-*.diff
+//!   C07-jpeg-seg-size.diff   (MAX_JPEG_MARKER_SIZE 64000 -> 65530: 16-bit segment length overflows)  -> VIOLATION
+//!   C07-riff-keep-old.diff   (RIFF writer keeps the old C2PA chunk when replacing)                    -> VIOLATION
 
-pub fn run(_run: &Run, _replay: Option<&Value>) {
-    kit::ev::machinery("C07: check not implemented");
+use kit::embed::{self, is_panic, kind_of_err, load, locations, remove, save};
+use kit::walk;
+use kit::{assets::Asset, par, Run};
+use serde_json::{json, Value};
+use std::collections::{BTreeMap, HashMap};
+
+const FOREIGN: usize = 333;
+
+fn viol(run: &Run, what_class: &str, a: &Asset, detail: String, case: Value) {
+    embed::report(run, format!("{what_class} fmt={:?} asset={}", embed::kind(a), a.name), detail, case);
+}
+
+/// Judge one state against the model. Returns a list of (class, detail) failures.
+fn judge(a: &Asset, bytes: &[u8], model: Option<&[u8]>) -> Vec<(String, String)> {
+    let mut f = vec![];
+    let k = embed::kind(a);
+    let l = load(a.mime, bytes);
+    match (model, &l) {
+        (Some(s), Ok(b)) if b.as_slice() == s => {}
+        (Some(s), Ok(b)) => f.push(("readback-differs".to_string(), format!("load returned {} bytes that differ from the {} written (first diff at {:?})", b.len(), s.len(), b.iter().zip(s.iter()).position(|(x, y)| x != y)))),
+        (Some(s), Err(e)) => f.push((format!("readback-error {}", kind_of_err(e)), format!("load after writing {} bytes fails: {e}", s.len()))),
+        (None, Err(e)) if kind_of_err(e) == "JumbfNotFound" => {}
+        (None, Ok(b)) => f.push(("removed-but-readable".to_string(), format!("load returns {} bytes although the model holds no manifest", b.len()))),
+        (None, Err(e)) => f.push((format!("no-manifest-error {}", kind_of_err(e)), format!("asset without manifest is not accepted by the reader: {e}"))),
+    }
+    match walk::manifests(k, bytes) {
+        Err(e) => f.push(("container-unparseable".to_string(), format!("independent walker cannot parse the result: {e}"))),
+        Ok(ms) => match (model, ms.len()) {
+            (None, 0) => {}
+            (None, n) => f.push(("manifest-left-behind".to_string(), format!("{n} manifest container(s) present although the model holds none"))),
+            (Some(_), 0) => f.push(("no-container".to_string(), "no manifest container found by the independent walker".to_string())),
+            (Some(s), 1) => {
+                if ms[0].payload != s {
+                    f.push(("container-payload-differs".to_string(), format!("the single container holds {} bytes that differ from the {} written", ms[0].payload.len(), s.len())));
+                }
+            }
+            (Some(_), n) => f.push(("several-containers".to_string(), format!("{n} manifest containers present after a write"))),
+        },
+    }
+    f
+}
+
+fn accepted_after_remove(a: &Asset, bytes: &[u8]) -> Vec<(String, String)> {
+    let mut f = vec![];
+    if let Err(e) = locations(a.mime, bytes) {
+        f.push((format!("after-remove locations {}", kind_of_err(&e)), format!("object locations of the asset after removal fail: {e}")));
+    }
+    let s = embed::store(77, 5);
+    match save(a.mime, bytes, &s) {
+        Err(e) => f.push((format!("after-remove write {}", kind_of_err(&e)), format!("writing into the asset after removal fails: {e}"))),
+        Ok(o) => {
+            for (c, d) in judge(a, &o, Some(&s)) {
+                f.push((format!("after-remove {c}"), d));
+            }
+        }
+    }
+    f
+}
+
+/// One length case. `full` adds the replace / remove legs.
+fn len_case(run: &Run, a: &Asset, pre: &[u8], n: usize, full: bool) {
+    run.eval();
+    let case = json!({"part":"len","asset":a.name,"n":n,"full":full});
+    let s = embed::store(n, 1);
+    let out = match save(a.mime, &a.data, &s) {
+        Ok(o) => o,
+        Err(e) => {
+            run.outcome(format!("write-err {}", kind_of_err(&e)));
+            viol(run, &format!("write-error {}", kind_of_err(&e)), a, format!("writing a well-formed {n}-byte store fails: {e}"), case);
+            return;
+        }
+    };
+    let mut fails = judge(a, &out, Some(&s));
+    if fails.is_empty() {
+        run.nontrivial(format!("{}/{}", a.name, n));
+    }
+    if full {
+        // replace by a shorter one
+        let t = embed::store(embed::MIN_STORE + n % 7, 3);
+        match save(a.mime, &out, &t) {
+            Err(e) => fails.push((format!("replace-shrink write-error {}", kind_of_err(&e)), e)),
+            Ok(o2) => fails.extend(judge(a, &o2, Some(&t)).into_iter().map(|(c, d)| (format!("replace-shrink {c}"), d))),
+        }
+        // replace an existing (foreign) one by this one
+        match save(a.mime, pre, &s) {
+            Err(e) => fails.push((format!("replace-foreign write-error {}", kind_of_err(&e)), e)),
+            Ok(o3) => fails.extend(judge(a, &o3, Some(&s)).into_iter().map(|(c, d)| (format!("replace-foreign {c}"), d))),
+        }
+        // remove
+        match remove(a.mime, &out) {
+            Err(e) => fails.push((format!("remove-error {}", kind_of_err(&e)), e)),
+            Ok(r) => {
+                fails.extend(judge(a, &r, None).into_iter().map(|(c, d)| (format!("remove {c}"), d)));
+                if n % 64 == 0 {
+                    fails.extend(accepted_after_remove(a, &r));
+                }
+            }
+        }
+    }
+    if fails.is_empty() {
+        run.outcome("roundtrip-ok");
+    }
+    for (c, d) in fails {
+        run.outcome(c.clone());
+        viol(run, &c, a, format!("n={n}: {d}"), case.clone());
+    }
+}
+
+/// Short / non-JUMBF strings: "error or exact bytes, never different bytes".
+fn raw_case(run: &Run, a: &Asset, n: usize) {
+    run.eval();
+    let case = json!({"part":"raw","asset":a.name,"n":n});
+    let s = embed::raw(n, 2);
+    match save(a.mime, &a.data, &s) {
+        Err(e) if is_panic::<()>(&Err(e.clone())) => viol(run, "raw-store write-panic", a, format!("n={n}: {e}"), case),
+        Err(e) => run.outcome(format!("raw write-err {}", kind_of_err(&e))),
+        Ok(out) => match load(a.mime, &out) {
+            Ok(b) if b == s => {
+                run.outcome("raw roundtrip-ok");
+                run.nontrivial(format!("raw/{}/{}", a.name, n));
+            }
+            Ok(b) => {
+                run.outcome("raw readback-differs");
+                viol(run, "raw-store readback-differs", a, format!("n={n}: wrote {:02x?}.. read back {} different bytes {:02x?}..", &s[..n.min(8)], b.len(), &b[..b.len().min(8)]), case);
+            }
+            Err(e) if e.starts_with("PANIC") => viol(run, "raw-store read-panic", a, format!("n={n}: {e}"), case),
+            Err(e) => run.outcome(format!("raw read-err {}", kind_of_err(&e))),
+        },
+    }
+}
+
+const OPS: [&str; 4] = ["wA", "wB", "wC", "rm"];
+
+fn op_store(op: &str) -> Option<Vec<u8>> {
+    match op {
+        "wA" => Some(embed::store(100, 1)),
+        "wB" => Some(embed::store(70_001, 2)),
+        "wC" => Some(embed::store(100, 3)),
+        "foreign" => Some(embed::store(FOREIGN, 9)),
+        _ => None,
+    }
+}
+
+fn apply(a: &Asset, bytes: &[u8], op: &str) -> embed::Out<Vec<u8>> {
+    match op_store(op) {
+        Some(s) => save(a.mime, bytes, &s),
+        None => remove(a.mime, bytes),
+    }
+}
+
+fn initial(a: &Asset, init: &str) -> (Vec<u8>, Option<&'static str>) {
+    match init {
+        "bare" => (a.data.clone(), None),
+        "foreign" => (
+            save(a.mime, &a.data, &op_store("foreign").unwrap()).unwrap_or_else(|e| kit::ev::machinery(format!("C07: cannot prepare foreign-manifest state of {}: {e}", a.name))),
+            Some("foreign"),
+        ),
+        // a removed-from state: the asset as the handler itself re-serialises it
+        "rewritten" => (
+            remove(a.mime, &a.data).unwrap_or_else(|e| kit::ev::machinery(format!("C07: cannot prepare rewritten state of {}: {e}", a.name))),
+            None,
+        ),
+        _ => kit::ev::machinery("C07: unknown initial state"),
+    }
+}
+
+/// BFS from one initial state. Returns (states, transitions).
+fn bfs(run: &Run, a: &Asset, init: &str, depth: usize) -> (u64, u64) {
+    let (b0, m0) = initial(a, init);
+    // state = bytes; identical bytes reached with different models would itself be a contradiction
+    let mut seen: HashMap<Vec<u8>, Option<&'static str>> = HashMap::new();
+    let mut frontier: Vec<(Vec<u8>, Option<&'static str>, Vec<&'static str>)> = vec![(b0.clone(), m0, vec![])];
+    seen.insert(b0, m0);
+    let (mut states, mut trans) = (1u64, 0u64);
+    for _d in 0..depth {
+        let mut next = vec![];
+        for (bytes, _model, path) in &frontier {
+            for op in OPS {
+                trans += 1;
+                run.eval();
+                let mut p = path.clone();
+                p.push(op);
+                let case = json!({"part":"bfs","asset":a.name,"init":init,"path":p});
+                let nm: Option<&'static str> = if op == "rm" { None } else { Some(op) };
+                match apply(a, bytes, op) {
+                    Err(e) => {
+                        run.outcome(format!("bfs {op} error {}", kind_of_err(&e)));
+                        viol(run, &format!("bfs op-error op={op} {}", kind_of_err(&e)), a, format!("init={init} path={p:?}: {e}"), case);
+                    }
+                    Ok(nb) => {
+                        let ms = nm.and_then(op_store);
+                        let mut fails = judge(a, &nb, ms.as_deref());
+                        if op == "rm" {
+                            fails.extend(accepted_after_remove(a, &nb));
+                        }
+                        if fails.is_empty() {
+                            run.outcome(format!("bfs {op} ok"));
+                            run.nontrivial(format!("bfs/{}/{}/{}", a.name, init, p.join(",")));
+                        }
+                        for (c, d) in fails {
+                            run.outcome(format!("bfs {c}"));
+                            viol(run, &format!("bfs {c} op={op}"), a, format!("init={init} path={p:?}: {d}"), case.clone());
+                        }
+                        match seen.get(&nb) {
+                            Some(old) if *old != nm => {
+                                // same bytes, different model value: one of the two reads must be wrong (already reported by judge)
+                            }
+                            Some(_) => {}
+                            None => {
+                                seen.insert(nb.clone(), nm);
+                                states += 1;
+                                next.push((nb, nm, p));
+                            }
+                        }
+                    }
+                }
+            }
+        }
+        frontier = next;
+        if frontier.is_empty() {
+            break;
+        }
+    }
+    (states, trans)
+}
+
+pub fn run(run: &Run, replay: Option<&Value>) {
+    run.rule("per seed asset: (1) every well-formed C2PA store length n in the stated set is written into the bare asset, read back and located by the independent walker; \
+              with the replace-shrink / replace-foreign / remove legs on the quick length set; non-trivial = cases where the write succeeded and both the SDK reader and the independent walker returned exactly the written bytes from exactly one container; \
+              (2) every raw (non-JUMBF) string length 1..300 with the weakened oracle 'error or exact bytes'; \
+              (3) BFS over {wA(100 B), wB(70001 B), wC(100 B, other content), rm} to the stated depth from {bare, foreign manifest present, handler-rewritten}; states de-duplicated by bytes; non-trivial = transitions whose result satisfied the model.");
+    run.assume("store byte strings are well-formed JUMBF superboxes with the C2PA description box (exact LBox) padded by a free box; shorter / arbitrary strings only get the weakened oracle");
+    run.assume("the independent walkers in kit::walk define what a manifest container is (APP11 JPEG-XT C2PA box groups, caBX, C2PA_GIF app extension, top-level C2PA RIFF chunk, TIFF tag 0xCD41 reachable from the main IFD chain, svg/metadata/c2pa:manifest, C2PA GEOB frames, c2pa-labelled jumb box, C2PA uuid box, whole sidecar file); bytes no longer referenced by the container (TIFF clones) do not count as a present store");
+    let seeds = embed::seeds();
+    if let Some(c) = replay {
+        return replay_case(run, c);
+    }
+
+    // own the nondeterminism: same write twice gives the same bytes
+    for a in &seeds {
+        let s = embed::store(500, 1);
+        let (x, y) = (save(a.mime, &a.data, &s), save(a.mime, &a.data, &s));
+        if x != y {
+            kit::ev::machinery(format!("C07: writing the same store twice into {} gives different results", a.name));
+        }
+        if let Err(e) = walk::media(embed::kind(a), &a.data) {
+            kit::ev::machinery(format!("C07: independent walker cannot interpret seed {}: {e}", a.name));
+        }
+        if let Err(e) = &x {
+            kit::ev::machinery(format!("C07: seed {} not accepted by its handler: {e}", a.name));
+        }
+    }
+
+    // ---- (0) files that are valid per their format specification but use rarer forms --------------------
+    let extra = embed::valid_but_unsupported();
+    run.space("valid-per-spec files using rarer forms (GIF plain text extension, BigTIFF IFD8 sub-IFD): accepted?", extra.len() as u64, true);
+    for a in &extra {
+        run.eval();
+        let s = embed::store(100, 1);
+        match save(a.mime, &a.data, &s) {
+            Err(e) => {
+                run.outcome("valid-asset-rejected");
+                embed::report(run, format!("valid-asset-rejected fmt={:?} asset={}", embed::kind(&a), a.name), format!("a {}-byte file that is valid per its format specification is refused by write_cai: {e}", a.data.len()), json!({"part":"extra","asset":a.name}));
+            }
+            Ok(o) => {
+                run.outcome("rare-form accepted");
+                for (c, d) in judge(a, &o, Some(&s)) {
+                    viol(run, &c, a, d, json!({"part":"extra","asset":a.name}));
+                }
+            }
+        }
+    }
+
+    // ---- (1) lengths -------------------------------------------------------------------------------
+    let quick = embed::quick_lengths();
+    let all_len: Vec<usize> = if run.tier.is_thorough() { (embed::MIN_STORE..=200_000).collect() } else { quick.clone() };
+    let qset: std::collections::BTreeSet<usize> = quick.iter().cloned().collect();
+    let pres: Vec<Vec<u8>> = seeds.iter().map(|a| initial(a, "foreign").0).collect();
+    run.space(&format!("store lengths: {} seeds x {} lengths ({}); replace/remove legs on the {} quick lengths", seeds.len(), all_len.len(),
+        if run.tier.is_thorough() { "every n in [46,200000]" } else { "every n in [46,4096] and +-8 around 64000k (k<=3), 65536k (k<=2)" }, quick.len()),
+        (seeds.len() * all_len.len()) as u64, true);
+    let total = (seeds.len() * all_len.len()) as u64;
+    par::for_each_index(total, |i| {
+        let ai = (i as usize) % seeds.len();
+        let n = all_len[(i as usize) / seeds.len()];
+        len_case(run, &seeds[ai], &pres[ai], n, qset.contains(&n));
+    });
+
+    // ---- (2) raw strings -----------------------------------------------------------------------------
+    let raws: Vec<usize> = (1..=300).collect();
+    run.space("raw (non-JUMBF) store strings: every length 1..300 per seed, weakened oracle", (seeds.len() * raws.len()) as u64, true);
+    par::for_each_index((seeds.len() * raws.len()) as u64, |i| {
+        raw_case(run, &seeds[(i as usize) % seeds.len()], raws[(i as usize) / seeds.len()]);
+    });
+
+    // ---- (3) BFS ---------------------------------------------------------------------------------------
+    let depth = run.tier.pick(4, 5);
+    let jobs: Vec<(usize, &str)> = (0..seeds.len()).flat_map(|i| ["bare", "foreign", "rewritten"].into_iter().map(move |s| (i, s))).collect();
+    let tot = std::sync::Mutex::new((0u64, 0u64, BTreeMap::<String, u64>::new()));
+    par::for_each(&jobs, |(i, init)| {
+        let (s, t) = bfs(run, &seeds[*i], init, depth);
+        let mut g = tot.lock().unwrap();
+        g.0 += s;
+        g.1 += t;
+        g.2.insert(format!("{}/{}", seeds[*i].name, init), s);
+    });
+    let g = tot.lock().unwrap();
+    run.states(g.0);
+    run.transitions(g.1);
+    run.traces(g.1);
+    run.space(&format!("BFS depth {depth} over 4 ops from 3 initial states per seed (all sequences; states merged by bytes)"), g.1, true);
+    run.extra("bfs_max_depth", json!(depth));
+    run.extra("bfs_states_per_seed_min_max", json!([g.2.values().min(), g.2.values().max()]));
+    run.sample(json!({"asset":"jpeg","n":64000,"flow":"write->load->walker; replace-shrink; replace-foreign; remove"}));
+    run.sample(json!({"asset":"wav","n":63999,"flow":"odd RIFF size"}));
+    run.sample(json!({"asset":"svg","n":4096,"flow":"base64 phase n%3=1"}));
+    run.sample(json!({"part":"bfs","asset":"tiff-II-2pages","init":"foreign","path":["wB","rm","wA","wC"]}));
+}
+
+fn replay_case(run: &Run, c: &Value) {
+    let a = embed::seed(c["asset"].as_str().unwrap_or(""));
+    let before = run.violation_count();
+    match c["part"].as_str() {
+        Some("len") => {
+            let pre = initial(&a, "foreign").0;
+            len_case(run, &a, &pre, c["n"].as_u64().unwrap_or(0) as usize, c["full"].as_bool().unwrap_or(true));
+        }
+        Some("raw") => raw_case(run, &a, c["n"].as_u64().unwrap_or(0) as usize),
+        Some("extra") => {
+            run.eval();
+            let r = save(a.mime, &a.data, &embed::store(100, 1));
+            println!("replay: write into {} -> {:?}", a.name, r.as_ref().map(|o| o.len()));
+            if let Err(e) = r {
+                embed::report(run, format!("valid-asset-rejected fmt={:?} asset={}", embed::kind(&a), a.name), e, c.clone());
+            }
+        }
+        Some("bfs") => {
+            run.eval();
+            let init = c["init"].as_str().unwrap_or("bare");
+            let (mut bytes, _) = initial(&a, init);
+            let mut model;
+            for op in c["path"].as_array().cloned().unwrap_or_default() {
+                let op = OPS.iter().find(|o| Some(**o) == op.as_str()).cloned().unwrap_or("rm");
+                match apply(&a, &bytes, op) {
+                    Err(e) => {
+                        println!("replay: {op} -> error {e}");
+                        embed::report(run, "replay", format!("{op}: {e}"), c.clone());
+                        return;
+                    }
+                    Ok(nb) => {
+                        bytes = nb;
+                        model = if op == "rm" { None } else { Some(op) };
+                        let fails = judge(&a, &bytes, model.and_then(op_store).as_deref());
+                        println!("replay: {op} -> {} bytes, model {:?}, failures {:?}", bytes.len(), model, fails);
+                        for (cl, d) in fails {
+                            embed::report(run, format!("bfs {cl} op={op} asset={}", a.name), d, c.clone());
+                        }
+                    }
+                }
+            }
+        }
+        _ => kit::ev::machinery("C07 replay: unknown part"),
+    }
+    println!("replay: {} violation(s) reproduced", run.violation_count() - before);
 }
